@@ -476,6 +476,23 @@ fn main() {
         run.bound(format!("shared memory: all prefix pairs and suffix pairs of 7 buffers x 4 patterns; {} calls with one buffer rewritten in place between calls", reuse_calls));
         run.merge(t);
     }
+    // candidates whose names collide under hand-written 32-bit hashes (a cache of parsed candidates
+    // keyed by such a hash returns the other one's version)
+    {
+        let mut t = Tally::new();
+        let star = Pattern::new("*").unwrap_or_else(|e| run.fault(&format!("*: {}", e)));
+        for (a, b, _) in mc_core::chars::HASH_COLLISIONS {
+            for (va, vb) in [("1.0", "2.0"), ("2.0", "1.0"), ("1.0", "1.0"), ("1.0nb1", "1.0")] {
+                let (x, y) = (format!("{}-{}", a, va), format!("{}-{}", b, vb));
+                t.states += 1;
+                t.transitions += 4;
+                check_pair(&run, &mut t, "*", &star, &x, &y);
+                check_pair(&run, &mut t, "*", &star, &y, &x);
+            }
+        }
+        run.bound("colliding names: 36 pairs of bases colliding under common 32-bit hashes x 4 version pairs, both orders, twice in a row");
+        run.merge(t);
+    }
     // numbers beyond the 18-digit domain of the comparison rule, restricted to pairs whose order
     // every faithful reading gives alike: at most one of the two exceeds i64::MAX (so saturating
     // at any width >= 64 bits, or exact arithmetic, agree).  d x 10^k and neighbours, 17..24 digits.
